@@ -615,7 +615,8 @@ Section Loop.
     li_astate : forall x, In x (l_astate L) ->
                 In x astate0 \/
                 exists r k d e, x = ((k, skipn (length r) d), de_spec e) /\ In (r, k) (l_tracker L) /\
-                                In (d, e) ds1 /\ is_prefix r d = true
+                                In (d, e) ds1 /\ is_prefix r d = true;
+    li_astate_mono : forall x, In x astate0 -> In x (l_astate L)
   }.
 
   Lemma in_done' : forall (done : list (path * dsentry)) d e p,
@@ -803,6 +804,7 @@ Section Loop.
         * intros x I. apply in_app_or in I. destruct I as [I|[I|[]]].
           -- apply (li_astate _ _ _ LI). auto.
           -- right. exists r, k, d, e. auto.
+        * intros x I. apply in_or_app. left. apply (li_astate_mono _ _ _ LI). auto.
       + intros g [H|H]; exists g; (split; [|apply gpres_refl]); [left|right]; auto.
     - (* ---- unchanged *)
       split; [|apply lpres_refl].
@@ -883,12 +885,815 @@ Section Loop.
           -- right. exists d, k, d, e. rewrite skipn_self. repeat split; auto.
              ++ apply in_or_app. right. left. auto.
              ++ apply prefix_refl.
+        * intros x I. apply in_or_app. left. apply (li_astate_mono _ _ _ LI). auto.
       + intros g [[p H]|[a [IA H]]].
         * destruct (A4 _ _ H) as (g' & H' & GP). exists g'. split; auto.
           destruct (is_prefix d p) eqn:PD.
-          -- right. exists moved. split; [apply in_or_app; right; left; auto|].
+          -- right. exists moved. simpl. split; [apply in_or_app; right; left; auto|].
              exists (skipn (length d) p). unfold moved. rewrite pget_rebased. rewrite <- prefix_app_skipn; auto.
-          -- left. exists p. rewrite pget_not_under. rewrite PD. auto.
-        * exists g. split; [|apply gpres_refl]. right. exists a. split; auto. apply in_or_app. auto.
+          -- left. exists p. simpl. rewrite pget_not_under. rewrite PD. auto.
+        * exists g. split; [|apply gpres_refl]. right. exists a. simpl. split; auto. apply in_or_app. auto.
+  Qed.
+
+  Lemma lpres_trans : forall A B C, lpres A B -> lpres B C -> lpres A C.
+  Proof.
+    intros A B C H1 H2 g G. destruct (H1 g G) as (g1 & G1 & P1). destruct (H2 g1 G1) as (g2 & G2 & P2).
+    exists g2. split; auto. eapply gpres_trans; eauto.
+  Qed.
+
+  Lemma linv_fold : forall rest done L,
+    linv L done rest ->
+    StronglySorted key_leb (done ++ rest) -> NoDup (map fst (done ++ rest)) ->
+    (forall x, In x rest -> In x ds1) ->
+    linv (fold_left (loop_step st up newmap) rest L) (done ++ rest) [] /\
+    lpres L (fold_left (loop_step st up newmap) rest L).
+  Proof.
+    induction rest as [|[d e] rest IH]; intros done L LI S ND SUB; simpl.
+    - rewrite app_nil_r. split; auto. apply lpres_refl.
+    - assert (SRT : forall x, In x done -> path_leb (fst x) d = true).
+      { intros x I. clear - S I.
+        induction done as [|y done IHd]; simpl in *; [contradiction|].
+        inversion S; subst. destruct I as [->|I]; auto.
+        rewrite Forall_forall in H2. apply (H2 (d, e)). apply in_or_app. right. left. auto. }
+      assert (NDd : ~ In d (map fst done) /\ ~ In d (map fst rest)).
+      { clear - ND. rewrite map_app in ND. simpl in ND. apply NoDup_remove_2 in ND.
+        split; intro I; apply ND; apply in_or_app; auto. }
+      destruct NDd as [NDd NDr].
+      destruct (linv_step _ _ _ _ _ LI SRT NDd NDr SUB) as [LI' LP].
+      replace (done ++ (d, e) :: rest) with ((done ++ [(d, e)]) ++ rest) in * by (rewrite <- app_assoc; auto).
+      destruct (IH _ _ LI' S ND (fun x I => SUB x (or_intror I))) as [LI'' LP'].
+      split; auto. eapply lpres_trans; eauto.
   Qed.
 End Loop.
+
+(* ------------------------------------------------------------------ *)
+(* invariant of a source workspace between Bob runs                    *)
+
+Definition attic_key_git (astate : list ((N * path) * option scm)) (k : nat) (p : path) : Prop :=
+  (exists os, In ((N.of_nat k, p), os) astate) /\
+  (forall os, In ((N.of_nat k, p), os) astate -> os = None \/ exists s, os = Some s /\ is_git s = true).
+
+Record winv (st : store) (w : wstate) : Prop := mkWI {
+  wi_ginv : forall p g, pget (w_nodes w) p = Some (NGit g) -> ginv st g;
+  wi_rec : forall p g, pget (w_nodes w) p = Some (NGit g) ->
+           exists e s, pget (w_ds w) p = Some e /\ de_spec e = Some s /\ is_git s = true;
+  wi_ent : forall p e, pget (w_ds w) p = Some e ->
+           exists s, de_spec e = Some s /\ scm_ok st s /\ de_dig e = Some (digest s);
+  wi_nodup : NoDup (map fst (w_ds w));
+  wi_gone : w_exists w = false -> forall p, pget (w_nodes w) p = None;
+  wi_attic : forall k a p g, nth_error (w_attic w) k = Some a -> pget a p = Some (NGit g) ->
+             ginv st g /\ attic_key_git (w_astate w) k p;
+  wi_aidx : forall k p os, In ((k, p), os) (w_astate w) -> (N.to_nat k < length (w_attic w))%nat
+}.
+
+Definition wpres (st : store) (w w' : wstate) : Prop :=
+  forall g, git_in_w w g -> exists g', git_in_w w' g' /\ gpres st g g'.
+
+Lemma wpres_refl : forall st w, wpres st w w.
+Proof. intros st w g H. exists g. split; auto. apply gpres_refl. Qed.
+
+Lemma wpres_trans : forall st a b c, wpres st a b -> wpres st b c -> wpres st a c.
+Proof.
+  intros st a b c H1 H2 g G. destruct (H1 g G) as (g1 & G1 & P1). destruct (H2 g1 G1) as (g2 & G2 & P2).
+  exists g2. split; auto. eapply gpres_trans; eauto.
+Qed.
+
+Lemma wpres_holds : forall st w w' o, wpres st w w' -> holds_w st w o -> holds_w st w' o.
+Proof.
+  intros st w w' o P (g & G & H). destruct (P g G) as (g' & G' & GP). exists g'. split; auto.
+Qed.
+
+Lemma winv_empty : forall st, winv st w_empty.
+Proof.
+  intro st. constructor; simpl; intros; try discriminate; try contradiction; auto.
+  - constructor.
+  - destruct k; discriminate.
+Qed.
+
+(* what the loop leaves behind *)
+Lemma skipn_app_self : forall A (a b : list A), skipn (length a) (a ++ b) = b.
+Proof. induction a; simpl; auto. Qed.
+
+Lemma seq_snd_nodup : forall (tr : list (path * N)) n0 m,
+  map snd tr = map N.of_nat (seq n0 m) ->
+  forall r1 r2 k, In (r1, k) tr -> In (r2, k) tr -> r1 = r2.
+Proof.
+  induction tr as [|[r k0] tr IH]; intros n0 m E r1 r2 k I1 I2; [contradiction|].
+  destruct m as [|m]; [discriminate|]. simpl in E. inversion E as [[E1 E2]].
+  assert (FRESH : forall r', In (r', k0) tr -> False).
+  { intros r' I. assert (In k0 (map snd tr)) by (apply in_map_iff; exists (r', k0); auto).
+    rewrite E2 in H. apply in_map_iff in H. destruct H as (i & Ei & Hi). apply in_seq in Hi.
+    rewrite E1 in Ei. apply Nat2N.inj in Ei. lia. }
+  destruct I1 as [I1|I1]; destruct I2 as [I2|I2].
+  - congruence.
+  - inversion I1 as [[J1 J2]]. rewrite <- J2 in I2. exfalso. eauto.
+  - inversion I2 as [[J1 J2]]. rewrite <- J2 in I1. exfalso. eauto.
+  - eapply IH; eauto.
+Qed.
+
+Lemma loop_end_attic : forall st newmap ds1 attic0 astate0 L done,
+  linv st newmap ds1 attic0 astate0 L done [] -> tinv L done ->
+  NoDup (map fst ds1) -> (forall x, In x done <-> In x ds1) ->
+  (forall k a p g, nth_error attic0 k = Some a -> pget a p = Some (NGit g) ->
+                   ginv st g /\ attic_key_git astate0 k p) ->
+  (forall k p os, In ((k, p), os) astate0 -> (N.to_nat k < length attic0)%nat) ->
+  (forall k a p g, nth_error (l_attic L) k = Some a -> pget a p = Some (NGit g) ->
+                   ginv st g /\ attic_key_git (l_astate L) k p) /\
+  (forall k p os, In ((k, p), os) (l_astate L) -> (N.to_nat k < length (l_attic L))%nat).
+Proof.
+  intros st newmap ds1 attic0 astate0 L done LI TI ND DONE OLD IDX.
+  destruct (li_attic_old _ _ _ _ _ _ _ _ LI) as (newa & EA1 & EA2 & EA3).
+  assert (TIDX : forall r k, In (r, k) (l_tracker L) ->
+            (length attic0 <= N.to_nat k < length (l_attic L))%nat).
+  { intros r k I. assert (In k (map snd (l_tracker L))) by (apply in_map_iff; exists (r, k); auto).
+    rewrite EA3 in H. apply in_map_iff in H. destruct H as (i & E & Hi). apply in_seq in Hi.
+    subst k. rewrite Nat2N.id. rewrite EA1, app_length. lia. }
+  assert (NEWIDX : forall x, In x (l_astate L) -> In x astate0 \/
+            exists r k d e, x = ((k, skipn (length r) d), de_spec e) /\ In (r, k) (l_tracker L) /\
+                            In (d, e) ds1 /\ is_prefix r d = true) by (apply (li_astate _ _ _ _ _ _ _ _ LI)).
+  split.
+  - intros k a p g NT PG.
+    destruct (Nat.lt_ge_cases k (length attic0)) as [LT|GE].
+    + (* an attic directory of an earlier run *)
+      rewrite EA1 in NT. rewrite nth_error_app1 in NT by auto.
+      destruct (OLD _ _ _ _ NT PG) as [GI [[os IO] ALL]]. split; auto. split.
+      * exists os. apply (li_astate_mono _ _ _ _ _ _ _ _ LI). auto.
+      * intros os' I'. destruct (NEWIDX _ I') as [O|(r & k' & d & e & E & IT & ID & PR)]; auto.
+        inversion E. subst k'. destruct (TIDX _ _ IT). rewrite Nat2N.id in *. lia.
+    + (* moved in this run: index k belongs to one tracked root r *)
+      assert (exists r, In (r, N.of_nat k) (l_tracker L)) as [r IT].
+      { assert (In (N.of_nat k) (map snd (l_tracker L))).
+        { rewrite EA3. apply in_map. apply in_seq. split; auto.
+          assert (k < length (l_attic L))%nat by (apply nth_error_Some; congruence).
+          rewrite EA1, app_length in H. lia. }
+        apply in_map_iff in H. destruct H as [[r k'] [E I]]. simpl in E. subst. eauto. }
+      assert (NT' : nth_error (l_attic L) (N.to_nat (N.of_nat k)) = Some a) by (rewrite Nat2N.id; auto).
+      destruct (li_attic_new _ _ _ _ _ _ _ _ LI _ _ _ _ _ IT NT' PG) as [GI (e & s & IE & SP & GS)].
+      split; auto. split.
+      * exists (de_spec e).
+        destruct (ti_homed _ _ TI r (N.of_nat k) (r ++ p) e IT) as [_ H].
+        -- apply DONE. auto.
+        -- apply prefix_app.
+        -- rewrite skipn_app_self in H. auto.
+      * intros os' I'. destruct (NEWIDX _ I') as [O|(r' & k' & d & e' & E & IT' & ID & PR)].
+        -- exfalso. apply IDX in O. rewrite Nat2N.id in O. lia.
+        -- inversion E. subst k'.
+           assert (r' = r) by (eapply seq_snd_nodup; eauto). subst r'.
+           assert (d = r ++ p).
+           { rewrite (prefix_app_skipn _ _ PR). f_equal. auto. }
+           subst d.
+           assert (e' = e).
+           { pose proof (In_pget_nodup _ _ _ _ ND ID) as G1. pose proof (In_pget_nodup _ _ _ _ ND IE) as G2. congruence. }
+           subst. right. exists s. auto.
+  - intros k p os I. destruct (NEWIDX _ I) as [O|(r & k' & d & e & E & IT & ID & PR)].
+    + apply IDX in O. rewrite EA1, app_length. lia.
+    + inversion E. subst. apply (TIDX _ _ IT).
+Qed.
+
+(* ------------------------------------------------------------------ *)
+(* recipe validation (input.py) and what it gives                      *)
+
+Definition spec_rel (x y : scm) : Prop :=
+  is_prefix (scm_dir y) (scm_dir x) = false /\
+  (is_prefix (scm_dir x) (scm_dir y) && is_git y && negb (is_git x)) = false.
+
+Lemma spec_ok_from_pairs : forall l known,
+  spec_ok_from known l = true ->
+  (forall s kn, In s l -> In kn known ->
+     is_prefix (scm_dir s) (fst kn) = false /\ (is_prefix (fst kn) (scm_dir s) && is_git s && negb (snd kn)) = false) /\
+  ForallOrdPairs spec_rel l.
+Proof.
+  induction l as [|s l IH]; intros known H; simpl in H.
+  - split; [intros; contradiction|constructor].
+  - apply andb_true_iff in H. destruct H as [H1 H2]. rewrite forallb_forall in H1.
+    destruct (IH _ H2) as [K1 K2]. split.
+    + intros s0 kn [->|I] IK.
+      * specialize (H1 _ IK). apply andb_true_iff in H1. destruct H1 as [A B].
+        apply negb_true_iff in A. apply negb_true_iff in B. auto.
+      * apply K1; auto. apply in_or_app. auto.
+    + constructor; auto. rewrite Forall_forall. intros y I.
+      destruct (K1 y (scm_dir s, is_git s) I) as [A B]; [apply in_or_app; right; left; auto|].
+      simpl in *. split; auto.
+Qed.
+
+Lemma spec_ok_rel : forall spec s s', spec_ok spec = true -> In s spec -> In s' spec ->
+  s = s' \/ spec_rel s s' \/ spec_rel s' s.
+Proof.
+  intros spec s s' H I I'. destruct (spec_ok_from_pairs _ _ H) as [_ P].
+  apply (ForallOrdPairs_In P); auto.
+Qed.
+
+Lemma spec_ok_no_git_below : forall spec s s', spec_ok spec = true -> In s spec -> In s' spec ->
+  is_git s = false -> is_git s' = true -> is_prefix (scm_dir s) (scm_dir s') = false.
+Proof.
+  intros spec s s' H I I' G G'. destruct (spec_ok_rel _ _ _ H I I') as [E|[[A B]|[A B]]].
+  - subst. congruence.
+  - rewrite G, G' in B. simpl in B. rewrite andb_true_r in B. rewrite andb_true_r in B. auto.
+  - auto.
+Qed.
+
+Lemma spec_ok_dirs_nodup : forall spec, spec_ok spec = true -> NoDup (map scm_dir spec).
+Proof.
+  intros spec H. destruct (spec_ok_from_pairs _ _ H) as [_ P]. clear H.
+  induction P as [|s l F P IH]; simpl; constructor; auto.
+  intro I. apply in_map_iff in I. destruct I as [s' [E I]]. rewrite Forall_forall in F.
+  destruct (F _ I) as [A _]. rewrite E in A. rewrite prefix_refl in A. discriminate.
+Qed.
+
+Lemma pget_spec_map : forall spec s, NoDup (map scm_dir spec) -> In s spec ->
+  pget (spec_map spec) (scm_dir s) = Some s.
+Proof.
+  intros spec s ND I. apply In_pget_nodup.
+  - unfold spec_map. rewrite map_map. simpl. auto.
+  - unfold spec_map. apply in_map_iff. exists s. auto.
+Qed.
+
+Lemma pget_spec_map_inv : forall spec p s, pget (spec_map spec) p = Some s -> In s spec /\ scm_dir s = p.
+Proof.
+  intros spec p s H. apply pget_In in H. unfold spec_map in H. apply in_map_iff in H.
+  destruct H as [s' [E I]]. inversion E. subst. auto.
+Qed.
+
+Lemma pget_new_ds : forall spec p,
+  pget (new_ds spec) p = match pget (spec_map spec) p with
+                         | Some s => Some (mkDE (Some (digest s)) (Some s))
+                         | None => None
+                         end.
+Proof.
+  induction spec as [|s spec IH]; intros p; simpl; auto.
+  unfold pget in *. simpl. destruct (path_eqb (scm_dir s) p); auto.
+Qed.
+
+(* ------------------------------------------------------------------ *)
+(* running the SCMs: every git node is (and stays) one of the recipe's git SCMs *)
+
+Section Invoke.
+  Variable st : store.
+  Variable up : upstream.
+  Variable spec : list scm.
+  Hypothesis W : store_wf st.
+  Hypothesis UO : up_ok' st up.
+  Hypothesis SOK : spec_ok spec = true.
+  Hypothesis SCMOK : forall s, In s spec -> scm_ok st s.
+
+  Definition jinv (ns : nodes) : Prop :=
+    forall p g, pget ns p = Some (NGit g) ->
+      ginv st g /\ exists s, pget (spec_map spec) p = Some s /\ is_git s = true.
+
+  Definition npres (ns ns' : nodes) : Prop :=
+    forall p g, pget ns p = Some (NGit g) -> exists g', pget ns' p = Some (NGit g') /\ gpres st g g'.
+
+  Lemma npres_refl : forall ns, npres ns ns.
+  Proof. intros ns p g H. exists g. split; auto. apply gpres_refl. Qed.
+
+  Lemma npres_trans : forall a b c, npres a b -> npres b c -> npres a c.
+  Proof.
+    intros a b c H1 H2 p g G. destruct (H1 p g G) as (g1 & G1 & P1). destruct (H2 p g1 G1) as (g2 & G2 & P2).
+    exists g2. split; auto. eapply gpres_trans; eauto.
+  Qed.
+
+  Lemma ginv_init : forall u f, ginv st (g_init u f).
+  Proof. intros. repeat split; simpl; intros; try contradiction; constructor. Qed.
+
+  (* a non-git SCM of the recipe never sits on or above a git node *)
+  Lemma nongit_not_above : forall ns s p g, jinv ns -> In s spec -> is_git s = false ->
+    pget ns p = Some (NGit g) -> is_prefix (scm_dir s) p = false.
+  Proof.
+    intros ns s p g J I G H. destruct (J _ _ H) as [_ (s' & NM & GS)].
+    destruct (pget_spec_map_inv _ _ _ NM) as [I' D]. rewrite <- D.
+    eapply spec_ok_no_git_below; eauto.
+  Qed.
+
+  Lemma put_plain_pres : forall ns d n, jinv ns ->
+    (forall g, n <> NGit g) -> (forall g, pget ns d <> Some (NGit g)) ->
+    jinv (put_node ns d n) /\ npres ns (put_node ns d n).
+  Proof.
+    intros ns d n J NG ND. split.
+    - intros p g H. apply put_node_git in H. destruct H as [[_ E]|[_ H]].
+      + exfalso. eapply NG; eauto.
+      + apply J. auto.
+    - intros p g H. exists g. split; [|apply gpres_refl].
+      destruct (list_eq_dec N.eq_dec p d) as [->|NE].
+      + exfalso. eapply ND; eauto.
+      + apply put_node_keeps; auto.
+  Qed.
+
+  Lemma node_with_files_plain : forall n f, (forall g, n <> NGit g) -> forall g, node_with_files n f <> NGit g.
+  Proof. intros n f H g. destruct n; simpl; [exfalso; eapply H; eauto|discriminate]. Qed.
+
+  Lemma invoke_scm_pres : forall ns s ns' ok,
+    jinv ns -> In s spec -> invoke_scm st up ns s = (ns', ok) ->
+    jinv ns' /\ npres ns ns'.
+  Proof.
+    intros ns s ns' ok J I H.
+    pose proof (spec_ok_dirs_nodup _ SOK) as NDS.
+    destruct s as [u r d|u dig d|src prune d]; simpl in H.
+    - (* git *)
+      set (g := match pget ns d with Some (NGit g) => g | Some (NPlain f) => g_init u f | None => g_init u [] end) in *.
+      destruct (git_invoke st up g u r false) as [g' ok'] eqn:GI. inversion H; subst. clear H.
+      assert (GINV : ginv st g).
+      { unfold g. destruct (pget ns d) as [[g0|f]|] eqn:P; try apply ginv_init. apply (J _ _ P). }
+      destruct (git_invoke_pres _ _ _ _ _ _ _ _ W UO GINV (fun E => False_ind _ (Bool.diff_false_true E)) GI) as [GP GI'].
+      split.
+      + intros p x H. apply put_node_git in H. destruct H as [[-> E]|[_ H]].
+        * inversion E. subst x. split; auto. exists (SGit u r d). split; auto.
+          apply (pget_spec_map spec (SGit u r d) NDS I).
+        * apply J. auto.
+      + intros p x H. destruct (list_eq_dec N.eq_dec p d) as [->|NE].
+        * exists g'. split; [apply pget_put_node_same|]. unfold g in GP. rewrite H in GP. auto.
+        * exists x. split; [apply put_node_keeps; auto|apply gpres_refl].
+    - (* url *)
+      assert (NG : forall g, pget ns d <> Some (NGit g)).
+      { intros g P. pose proof (nongit_not_above ns (SUrl u dig d) d g J I eq_refl P) as F.
+        simpl in F. rewrite prefix_refl in F. discriminate. }
+      set (n := match pget ns d with Some n => n | None => NPlain [] end) in *.
+      assert (NP : forall g, n <> NGit g).
+      { intros g E. unfold n in E. destruct (pget ns d) eqn:P; [subst; eapply NG; eauto|discriminate]. }
+      match type of H with (match ?f with _ => _ end) = _ => destruct f as [files'|] end.
+      + inversion H; subst. apply put_plain_pres; auto. apply node_with_files_plain. auto.
+      + inversion H; subst. apply put_plain_pres; auto.
+    - (* import *)
+      assert (NG : forall p g, pget ns p = Some (NGit g) -> is_prefix d p = false).
+      { intros p g P. apply (nongit_not_above ns (SImport src prune d) p g J I eq_refl P). }
+      set (n := match pget ns d with Some n => n | None => NPlain [] end) in *.
+      assert (NP : forall g, n <> NGit g).
+      { intros g E. unfold n in E. destruct (pget ns d) eqn:P; [|discriminate]. subst.
+        pose proof (NG _ _ P) as F. rewrite prefix_refl in F. discriminate. }
+      set (ns1 := if prune then filter (fun pn => negb (strict_prefix d (fst pn))) ns else ns) in *.
+      set (n1 := if prune then NPlain [] else n) in *.
+      assert (G1 : forall p, pget ns1 p = if prune && strict_prefix d p then None else pget ns p).
+      { intro p. unfold ns1. destruct prune; simpl; auto. unfold pget.
+        rewrite (kget_filter_key path_eqb path_eqb_spec (fun q => negb (strict_prefix d q)) ns p).
+        destruct (strict_prefix d p); auto. }
+      assert (J1 : jinv ns1).
+      { intros p g P. rewrite G1 in P. destruct (prune && strict_prefix d p); [discriminate|]. apply J. auto. }
+      assert (P1 : npres ns ns1).
+      { intros p g P. exists g. split; [|apply gpres_refl]. rewrite G1.
+        unfold strict_prefix. rewrite (NG _ _ P). simpl. rewrite andb_false_r. auto. }
+      assert (NG1 : forall g, pget ns1 d <> Some (NGit g)).
+      { intros g P. rewrite G1 in P. destruct (prune && strict_prefix d d); [discriminate|].
+        pose proof (NG _ _ P) as F. rewrite prefix_refl in F. discriminate. }
+      assert (NP1 : forall g, n1 <> NGit g).
+      { intros g. unfold n1. destruct prune; [discriminate|apply NP]. }
+      destruct (aget (up_imp up) src) as [srcf|]; inversion H; subst.
+      + destruct (put_plain_pres ns1 d (node_with_files n1
+                    (fold_left (fun acc fb => aset acc (fst fb) (snd fb)) srcf (node_files n1))) J1
+                    (node_with_files_plain _ _ NP1) NG1) as [A B].
+        split; auto. eapply npres_trans; eauto.
+      + destruct (put_plain_pres ns1 d n1 J1 NP1 NG1) as [A B].
+        split; auto. eapply npres_trans; eauto.
+  Qed.
+
+  Lemma invoke_all_pres : forall l ns ns' ok,
+    jinv ns -> (forall s, In s l -> In s spec) -> invoke_all st up ns l = (ns', ok) ->
+    jinv ns' /\ npres ns ns'.
+  Proof.
+    induction l as [|s l IH]; intros ns ns' ok J SUB H; simpl in H.
+    - inversion H; subst. split; auto. apply npres_refl.
+    - destruct (invoke_scm st up ns s) as [ns1 ok1] eqn:E.
+      destruct (invoke_scm_pres _ _ _ _ J (SUB s (or_introl eq_refl)) E) as [J1 P1].
+      destruct ok1.
+      + destruct (IH _ _ _ J1 (fun x I => SUB x (or_intror I)) H) as [J2 P2].
+        split; auto. eapply npres_trans; eauto.
+      + inversion H; subst. auto.
+  Qed.
+End Invoke.
+
+(* ------------------------------------------------------------------ *)
+(* _cookCheckoutStep keeps the workspace invariant and every user object *)
+
+Lemma invalidate_facts : forall st ns newmap ds0,
+  map fst (map (invalidate_dirty st ns newmap) ds0) = map fst ds0 /\
+  forall p e1, pget (map (invalidate_dirty st ns newmap) ds0) p = Some e1 ->
+    exists e0, pget ds0 p = Some e0 /\ de_spec e1 = de_spec e0 /\
+               (de_dig e1 = de_dig e0 \/ (de_dig e1 = None /\ pget newmap p <> None)).
+Proof.
+  intros st ns newmap ds0. induction ds0 as [|[d e] l [IH1 IH2]]; simpl.
+  - split; auto. intros. discriminate.
+  - assert (F : fst (invalidate_dirty st ns newmap (d, e)) = d).
+    { unfold invalidate_dirty. simpl. destruct (pget newmap d); auto.
+      match goal with |- fst (if ?c then _ else _) = _ => destruct c end; auto. }
+    split.
+    + rewrite F, IH1. auto.
+    + intros p e1 H. unfold pget in *. simpl in H.
+      destruct (invalidate_dirty st ns newmap (d, e)) as [d' e'] eqn:INV. simpl in F. subst d'. simpl in H.
+      destruct (path_eqb d p) eqn:Q.
+      * inversion H. subst e'. apply path_eqb_spec in Q. subst p. exists e.
+        split; [simpl; rewrite (proj2 (path_eqb_spec d d) eq_refl); auto|].
+        unfold invalidate_dirty in INV. simpl in INV.
+        destruct (kget path_eqb newmap d) as [s|] eqn:NM.
+        -- unfold pget in INV. rewrite NM in INV.
+           match type of INV with (if ?c then _ else _) = _ => destruct c end; inversion INV; subst; simpl; auto.
+           split; auto. right. split; auto. congruence.
+        -- unfold pget in INV. rewrite NM in INV. inversion INV. subst. auto.
+      * simpl. rewrite Q. apply IH2. auto.
+Qed.
+
+Lemma linv_init : forall st newmap ds1 (w : wstate),
+  winv st w ->
+  NoDup (map fst ds1) ->
+  (forall p e1, pget ds1 p = Some e1 ->
+     exists e0, pget (w_ds w) p = Some e0 /\ de_spec e1 = de_spec e0 /\
+                (de_dig e1 = de_dig e0 \/ (de_dig e1 = None /\ pget newmap p <> None))) ->
+  (forall p g, pget (w_nodes w) p = Some (NGit g) -> exists e s, pget ds1 p = Some e /\ de_spec e = Some s /\ is_git s = true) ->
+  linv st newmap ds1 (w_attic w) (w_astate w)
+       (mkL true (w_nodes w) ds1 (w_attic w) (w_astate w) [] []) [] (sort_paths ds1).
+Proof.
+  intros st newmap ds1 w WI ND ENT REC. constructor; simpl.
+  - apply (wi_ginv _ _ WI).
+  - exact REC.
+  - constructor.
+    + intros p e H. destruct (ENT _ _ H) as (e0 & H0 & S & D).
+      destruct (wi_ent _ _ WI _ _ H0) as (s & S0 & OK & DG). exists s. rewrite S. repeat split; auto.
+      destruct D as [D|D]; [left; congruence|right; auto].
+    + intros p e I. contradiction.
+    + intros p e H. right. apply pget_In_fst in H.
+      eapply Permutation_in; [apply Permutation_sym; apply sort_paths_keys_perm|]. auto.
+    + intros d e I. apply (proj1 (sort_paths_In _ ds1 (d, e))) in I. apply In_pget_nodup; auto.
+    + exact ND.
+  - intros r k p I. contradiction.
+  - discriminate.
+  - exists []. rewrite app_nil_r. auto.
+  - intros r k a p g I. contradiction.
+  - intros x I. auto.
+  - auto.
+Qed.
+
+(* after the loop every remaining entry carries the digest of the new recipe *)
+Lemma loop_end_ent : forall st newmap ds1 attic0 astate0 L done p e,
+  linv st newmap ds1 attic0 astate0 L done [] -> pget (l_ds L) p = Some e ->
+  exists s, de_spec e = Some s /\ scm_ok st s /\ de_dig e = Some (digest s) /\ de_dig e = newd newmap p.
+Proof.
+  intros st newmap ds1 attic0 astate0 L done p e LI H.
+  pose proof (li_d _ _ _ _ _ _ _ _ LI) as DI.
+  destruct (di_ent _ _ _ _ _ DI _ _ H) as (s & S & OK & D).
+  assert (ID : In p (map fst done)).
+  { destruct (di_keys _ _ _ _ _ DI _ _ H) as [I|I]; auto. contradiction. }
+  pose proof (di_settled _ _ _ _ _ DI _ _ ID H) as Q. apply odg_eqb_eq in Q.
+  exists s. repeat split; auto.
+  destruct D as [D|[D1 D2]]; auto. exfalso. rewrite D1 in Q. unfold newd in Q.
+  destruct (pget newmap p); [discriminate|]. apply D2. auto.
+Qed.
+
+Lemma cook_pres : forall st up cc spec w w' o,
+  store_wf st -> up_ok' st up -> spec_ok spec = true -> (forall s, In s spec -> scm_ok st s) ->
+  winv st w -> cook st up cc spec w = (w', o) ->
+  winv st w' /\ wpres st w w'.
+Proof.
+  intros st up cc spec w w' o W UO SOK SCMOK WI H. unfold cook in H.
+  set (created := negb (w_exists w)) in *.
+  set (ds0 := if created then [] else w_ds w) in *.
+  set (vid0 := if created then None else w_vid w) in *.
+  set (newmap := spec_map spec) in *.
+  set (ds1 := if cc then map (invalidate_dirty st (w_nodes w) newmap) ds0 else ds0) in *.
+  match type of H with (if negb ?r then _ else _) = _ => destruct r eqn:REASON end; cbn [negb] in H.
+  2:{ (* skipped *)
+    inversion H; subst. clear H.
+    assert (created = false).
+    { destruct created; auto; try (simpl in REASON; discriminate). }
+    unfold ds0, vid0. rewrite H. split.
+    - destruct WI. constructor; simpl; auto. discriminate.
+    - intros g G. exists g. split; [exact G|apply gpres_refl]. }
+  assert (NEWOK : forall d s, pget newmap d = Some s -> scm_ok st s).
+  { intros d s NM. apply SCMOK. apply (pget_spec_map_inv _ _ _ NM). }
+  (* facts about the (possibly invalidated) old state *)
+  assert (DS0 : (forall p e, pget ds0 p = Some e -> pget (w_ds w) p = Some e) /\ NoDup (map fst ds0) /\
+                (forall p g, pget (w_nodes w) p = Some (NGit g) ->
+                   exists e s, pget ds0 p = Some e /\ de_spec e = Some s /\ is_git s = true)).
+  { unfold ds0. destruct created eqn:C.
+    - split; [intros; discriminate|]. split; [constructor|].
+      intros p g P. unfold created in C. apply negb_true_iff in C.
+      rewrite (wi_gone _ _ WI C p) in P. discriminate.
+    - split; auto. split; [apply (wi_nodup _ _ WI)|apply (wi_rec _ _ WI)]. }
+  destruct DS0 as (DS0a & DS0b & DS0c).
+  assert (DS1 : NoDup (map fst ds1) /\
+                (forall p e1, pget ds1 p = Some e1 ->
+                   exists e0, pget (w_ds w) p = Some e0 /\ de_spec e1 = de_spec e0 /\
+                              (de_dig e1 = de_dig e0 \/ (de_dig e1 = None /\ pget newmap p <> None))) /\
+                (forall p g, pget (w_nodes w) p = Some (NGit g) ->
+                   exists e s, pget ds1 p = Some e /\ de_spec e = Some s /\ is_git s = true)).
+  { unfold ds1. destruct cc.
+    - destruct (invalidate_facts st (w_nodes w) newmap ds0) as [F1 F2]. split; [rewrite F1; auto|]. split.
+      + intros p e1 P. destruct (F2 _ _ P) as (e0 & P0 & S & D). exists e0. split; auto.
+      + intros p g P. destruct (DS0c _ _ P) as (e & s & P0 & S & G).
+        assert (exists e1, pget (map (invalidate_dirty st (w_nodes w) newmap) ds0) p = Some e1) as [e1 P1].
+        { assert (In p (map fst (map (invalidate_dirty st (w_nodes w) newmap) ds0))).
+          { rewrite F1. eapply pget_In_fst; eauto. }
+          apply in_map_iff in H0. destruct H0 as [[p' e1] [E I]]. simpl in E. subst p'.
+          exists e1. apply In_pget_nodup; auto. rewrite F1. auto. }
+        destruct (F2 _ _ P1) as (e0 & P0' & S' & _). rewrite P0 in P0'. inversion P0'. subst e0.
+        exists e1, s. rewrite S'. auto.
+    - split; auto. split; auto.
+      intros p e1 P. exists e1. split; auto. }
+  destruct DS1 as (DS1a & DS1b & DS1c).
+  set (L0 := mkL true (w_nodes w) ds1 (w_attic w) (w_astate w) [] []) in *.
+  pose proof (linv_init st newmap ds1 w WI DS1a DS1b DS1c) as LI0. fold L0 in LI0.
+  set (L := fold_left (loop_step st up newmap) (sort_paths ds1) L0) in *.
+  destruct (linv_fold st up newmap W UO NEWOK ds1 (w_attic w) (w_astate w) (sort_paths ds1) [] L0 LI0
+              (sort_paths_sorted _ ds1) (sort_paths_nodup _ ds1 DS1a)
+              (fun x I => proj1 (sort_paths_In _ ds1 x) I)) as [LI LP].
+  fold L in LI, LP. simpl in LI.
+  assert (TI : tinv L (sort_paths ds1)).
+  { apply (tinv_fold st up newmap (sort_paths ds1) [] L0).
+    - constructor; simpl; intros; contradiction.
+    - apply sort_paths_sorted.
+    - apply sort_paths_nodup. auto. }
+  destruct (loop_end_attic st newmap ds1 (w_attic w) (w_astate w) L (sort_paths ds1) LI TI DS1a
+              (sort_paths_In _ ds1) (wi_attic _ _ WI) (wi_aidx _ _ WI)) as [ATT AIDX].
+  assert (WP0 : forall g, git_in_w w g -> exists g', git_in_L L g' /\ gpres st g g').
+  { intros g G. apply LP. exact G. }
+  match type of H with (if ?c then _ else _) = _ => destruct c eqn:COLL end.
+  - (* collision *)
+    inversion H; subst. clear H. split.
+    + constructor; simpl; auto.
+      * apply (li_ginv _ _ _ _ _ _ _ _ LI).
+      * apply (li_rec _ _ _ _ _ _ _ _ LI).
+      * intros p e P. destruct (loop_end_ent _ _ _ _ _ _ _ _ _ LI P) as (s & S & OK & D & _). eauto.
+      * apply (di_nodup _ _ _ _ _ (li_d _ _ _ _ _ _ _ _ LI)).
+      * intros EX p. destruct (li_ex _ _ _ _ _ _ _ _ LI EX) as [k I].
+        eapply (li_clear _ _ _ _ _ _ _ _ LI); eauto.
+    + intros g G. destruct (WP0 g G) as (g' & G' & GP). exists g'. split; auto.
+  - (* the SCMs run *)
+    destruct (invoke_all st up (l_nodes L) spec) as [ns2 ok] eqn:INV. inversion H; subst. clear H.
+    assert (J : jinv st spec (l_nodes L)).
+    { intros p g P. split; [apply (li_ginv _ _ _ _ _ _ _ _ LI _ _ P)|].
+      destruct (li_rec _ _ _ _ _ _ _ _ LI _ _ P) as (e & s & PE & S & G).
+      destruct (loop_end_ent _ _ _ _ _ _ _ _ _ LI PE) as (s' & S' & _ & D & DN).
+      rewrite S in S'. inversion S'. subst s'. rewrite D in DN. unfold newd in DN. fold newmap.
+      destruct (pget newmap p) as [sn|]; [|discriminate]. exists sn. split; auto.
+      inversion DN as [DD]. rewrite <- (digest_kind _ _ DD). auto. }
+    destruct (invoke_all_pres st up spec W UO SOK spec _ _ _ J (fun s I => I) INV) as [J2 NP].
+    pose proof (spec_ok_dirs_nodup _ SOK) as NDS.
+    split.
+    + constructor; simpl; auto.
+      * intros p g P. apply (J2 _ _ P).
+      * intros p g P. destruct (J2 _ _ P) as [_ (s & NM & G)].
+        rewrite pget_new_ds. rewrite NM. eexists. exists s. split; [reflexivity|]. simpl. auto.
+      * intros p e P. rewrite pget_new_ds in P. destruct (pget (spec_map spec) p) as [s|] eqn:NM; [|discriminate].
+        inversion P. subst e. exists s. simpl. repeat split; auto. apply SCMOK. apply (pget_spec_map_inv _ _ _ NM).
+      * unfold new_ds. rewrite map_map. simpl. exact NDS.
+      * discriminate.
+    + intros g G. destruct (WP0 g G) as (g1 & [[p P]|A] & GP).
+      * destruct (NP _ _ P) as (g2 & P2 & GP2). exists g2. split.
+        -- left. exists p. auto.
+        -- eapply gpres_trans; eauto.
+      * exists g1. split; auto. right. auto.
+Qed.
+
+(* ------------------------------------------------------------------ *)
+(* bob clean -s / --attic keep the invariant and every user object     *)
+
+Lemma winv_up_refs : forall st g, ginv st g -> up_refs st g.
+Proof. intros st g [U _]. exact U. Qed.
+
+Lemma clean_src_pres : forall st used w,
+  store_wf st -> winv st w ->
+  winv st (clean_src_one st used w) /\ (forall o, holds_w st w o -> holds_w st (clean_src_one st used w) o).
+Proof.
+  intros st used w W WI. unfold clean_src_one.
+  destruct (negb used && w_exists w && all_expendable st w) eqn:C; [|split; auto].
+  apply andb_true_iff in C. destruct C as [_ A]. unfold all_expendable in A. rewrite forallb_forall in A.
+  split.
+  - destruct WI. constructor; simpl; auto; try (intros; discriminate). constructor.
+  - intros o (g & [[p P]|G] & H).
+    + exfalso. destruct (wi_rec _ _ WI _ _ P) as (e & s & PE & S & GS).
+      specialize (A _ (pget_In _ _ _ _ PE)). simpl in A. unfold entry_expendable in A. rewrite S in A.
+      destruct s as [u r d|? ? ?|? ? ?]; try discriminate. simpl in A. rewrite P in A.
+      eapply expendable_no_user_objects; eauto. apply winv_up_refs. apply (wi_ginv _ _ WI _ _ P).
+    + exists g. split; auto. right. exact G.
+Qed.
+
+Lemma clean_attic_length : forall st w, length (w_attic (clean_attic_one st w)) = length (w_attic w).
+Proof.
+  intros. unfold clean_attic_one. simpl. rewrite map_length, combine_length, map_length, seq_length.
+  apply Nat.min_id.
+Qed.
+
+Lemma clean_attic_nth : forall st w k a',
+  nth_error (w_attic (clean_attic_one st w)) k = Some a' ->
+  exists a, nth_error (w_attic w) k = Some a /\
+    forall p, pget a' p =
+      if existsb (fun ae => (fst (fst ae) =? N.of_nat k) && is_prefix (snd (fst ae)) p)
+                 (filter (attic_deletable st w) (w_astate w))
+      then None else pget a p.
+Proof.
+  intros st w k a' H.
+  assert (LT : (k < length (w_attic w))%nat).
+  { rewrite <- (clean_attic_length st w). apply nth_error_Some. congruence. }
+  destruct (nth_error (w_attic w) k) as [a|] eqn:NT; [|apply nth_error_None in NT; lia].
+  exists a. split; auto.
+  unfold clean_attic_one in H. simpl in H.
+  rewrite (map_nth_error _ _ _ (nth_combine_seq _ _ _ _ NT)) in H. inversion H. subst a'. clear H.
+  intro p. unfold pget. cbn [fst snd].
+  rewrite (kget_filter_key path_eqb path_eqb_spec
+      (fun q => negb (existsb (fun ae => (fst (fst ae) =? N.of_nat k) && is_prefix (snd (fst ae)) q)
+                              (filter (attic_deletable st w) (w_astate w)))) a p).
+  destruct (existsb _ _); auto.
+Qed.
+
+Lemma nth_error_nth' : forall A (l : list A) k a d, nth_error l k = Some a -> nth k l d = a.
+Proof. intros. apply nth_error_nth. auto. Qed.
+
+Lemma clean_attic_pres : forall st w,
+  store_wf st -> winv st w ->
+  winv st (clean_attic_one st w) /\ (forall o, holds_w st w o -> holds_w st (clean_attic_one st w) o).
+Proof.
+  intros st w W WI.
+  (* a git node covered by a deletable recorded directory holds nothing of the user *)
+  assert (DEAD : forall k a p g ae o,
+            nth_error (w_attic w) k = Some a -> pget a p = Some (NGit g) ->
+            In ae (w_astate w) -> attic_deletable st w ae = true ->
+            fst (fst ae) = N.of_nat k -> is_prefix (snd (fst ae)) p = true ->
+            ~ holds_g st g o).
+  { intros k a p g [[k' q] os] o NT PG IA DEL EK PR. simpl in EK, PR. subst k'.
+    destruct (wi_attic _ _ WI _ _ _ _ NT PG) as [GI [[os' IO'] ALL]].
+    destruct (clean_attic_requires_expendable_proof _ _ _ DEL) as [EXP NEST].
+    assert (STAT : forall os0, In ((N.of_nat k, p), os0) (w_astate w) ->
+                     attic_expendable st w ((N.of_nat k, p), os0) = true -> ~ holds_g st g o).
+    { intros os0 I0 E0. unfold attic_expendable in E0. simpl in E0. rewrite Nat2N.id in E0.
+      replace (nth k (w_attic w) []) with a in E0 by (symmetry; apply nth_error_nth; auto).
+      destruct (ALL _ I0) as [->|(s & -> & GS)]; [discriminate|].
+      destruct s as [u r d|? ? ?|? ? ?]; try discriminate. simpl in E0. rewrite PG in E0.
+      eapply expendable_no_user_objects; eauto. apply winv_up_refs. auto. }
+    destruct (list_eq_dec N.eq_dec q p) as [->|NE].
+    - apply (STAT os); auto.
+    - apply (STAT os'); auto. apply (NEST _ IO'); simpl; auto.
+      + unfold strict_prefix. rewrite PR. simpl. apply negb_true_iff.
+        destruct (path_eqb q p) eqn:Q; auto. apply path_eqb_spec in Q. contradiction.
+      + unfold attic_exists. simpl. rewrite Nat2N.id.
+        replace (nth k (w_attic w) []) with a by (symmetry; apply nth_error_nth; auto).
+        eapply pget_some_exists; eauto. }
+  split.
+  - constructor; try (destruct WI; simpl; auto; fail).
+    + intros k a' p g NT PG. destruct (clean_attic_nth _ _ _ _ NT) as (a & NT0 & GET).
+      rewrite GET in PG. destruct (existsb _ _) eqn:X; [discriminate|].
+      destruct (wi_attic _ _ WI _ _ _ _ NT0 PG) as [GI [[os IO] ALL]]. split; auto. split.
+      * exists os. unfold clean_attic_one. simpl. apply filter_In. split; auto.
+        unfold attic_exists. simpl. rewrite Nat2N.id.
+        fold (w_attic (clean_attic_one st w)).
+        assert (nth k (w_attic (clean_attic_one st w)) [] = a') by (apply nth_error_nth; auto).
+        unfold clean_attic_one in H. simpl in H. rewrite H.
+        eapply pget_some_exists. rewrite GET. rewrite X. eauto.
+      * intros os' I'. unfold clean_attic_one in I'. simpl in I'. apply filter_In in I'. destruct I' as [I' _]. auto.
+    + intros k p os I. rewrite clean_attic_length. unfold clean_attic_one in I. simpl in I.
+      apply filter_In in I. destruct I as [I _]. apply (wi_aidx _ _ WI _ _ _ I).
+  - intros o (g & [G|(a & IA & [p PG])] & H).
+    + exists g. split; auto. left. exact G.
+    + apply In_nth_error in IA. destruct IA as [k NT].
+      destruct (existsb (fun ae => (fst (fst ae) =? N.of_nat k) && is_prefix (snd (fst ae)) p)
+                        (filter (attic_deletable st w) (w_astate w))) eqn:X.
+      * exfalso. apply existsb_exists in X. destruct X as [ae [IF B]]. apply filter_In in IF. destruct IF as [IA DEL].
+        apply andb_true_iff in B. destruct B as [B1 B2]. apply N.eqb_eq in B1.
+        eapply DEAD; eauto.
+      * destruct (clean_attic_keeps_other_nodes st w k a p (NGit g) NT PG) as (a' & NT' & PG').
+        { intros ae IA DEL EK. destruct (is_prefix (snd (fst ae)) p) eqn:PR; auto. exfalso.
+          assert (existsb (fun ae0 => (fst (fst ae0) =? N.of_nat k) && is_prefix (snd (fst ae0)) p)
+                          (filter (attic_deletable st w) (w_astate w)) = true).
+          { apply existsb_exists. exists ae. split; [apply filter_In; auto|].
+            rewrite EK, N.eqb_refl, PR. auto. }
+          congruence. }
+        exists g. split; auto. right. exists a'. split; [eapply nth_error_In; eauto|exists p; auto].
+Qed.
+
+(* user actions keep the invariant (they may of course destroy the user's own objects) *)
+Lemma user_op_ginv : forall st g u, ginv st g -> ginv st (user_op st g u).
+Proof.
+  intros st g u GI. apply (frame_ginv st g); auto.
+  destruct u as [f b|c|b|b|[c|]]; unfold user_op.
+  - apply frame_with_co_same.
+  - destruct (g_head g); [apply frame_with_co_aset|apply frame_with_co_same].
+  - destruct (head_commit g); [apply frame_with_co_aset|apply frame_refl].
+  - destruct (aget (g_branches g) b).
+    + destruct (co_branch st g b) eqn:E. simpl. eapply co_branch_frame; eauto.
+    + destruct (co_new_branch st g b (aget (g_remotes g) b)) eqn:E. simpl. eapply co_new_branch_frame; eauto.
+  - destruct (co_detach st g (Some c)) eqn:E. simpl. eapply co_detach_frame; eauto.
+  - destruct (head_commit g); [apply frame_with_co_same|apply frame_refl].
+Qed.
+
+(* ------------------------------------------------------------------ *)
+(* projects                                                            *)
+
+Definition P_inv (st : store) (P : proj) : Prop := forall k w, aget P k = Some w -> winv st w.
+
+Definition op_ok (st : store) (o : op) : Prop :=
+  match o with
+  | OBuild _ up specs =>
+      up_ok' st up /\
+      forall k spec, In (k, spec) specs -> spec_ok spec = true /\ forall s, In s spec -> scm_ok st s
+  | _ => True
+  end.
+
+Definition bob_op (o : op) : Prop := match o with OUser _ _ _ => False | _ => True end.
+
+Lemma getw_inv : forall st P k, P_inv st P -> winv st (getw P k).
+Proof. intros st P k PI. unfold getw. destruct (aget P k) eqn:E; [eauto|apply winv_empty]. Qed.
+
+Lemma aget_map_val : forall (P : proj) (f : N -> wstate -> wstate) k,
+  aget (map (fun kw => (fst kw, f (fst kw) (snd kw))) P) k =
+  match aget P k with Some w => Some (f k w) | None => None end.
+Proof.
+  induction P as [|[k' w] P IH]; intros f k; simpl; auto.
+  unfold aget in *. simpl. destruct (k' =? k) eqn:E; auto. apply N.eqb_eq in E. subst. auto.
+Qed.
+
+Lemma build_all_pres : forall st up cc specs P P' os,
+  store_wf st -> up_ok' st up ->
+  (forall k spec, In (k, spec) specs -> spec_ok spec = true /\ forall s, In s spec -> scm_ok st s) ->
+  P_inv st P -> build_all st up cc specs P = (P', os) ->
+  P_inv st P' /\ forall o, holds_P st P o -> holds_P st P' o.
+Proof.
+  intros st up cc specs. induction specs as [|[k spec] specs IH]; intros P P' os W UO OK PI H; simpl in H.
+  - inversion H; subst. auto.
+  - assert (OK' : forall k0 spec0, In (k0, spec0) specs -> spec_ok spec0 = true /\ forall s, In s spec0 -> scm_ok st s).
+    { intros k0 spec1 I0. apply (OK k0 spec1). right. auto. }
+    destruct spec as [|s0 spec0].
+    + eapply IH; eauto.
+    + destruct (cook st up cc (s0 :: spec0) (getw P k)) as [w' o] eqn:C.
+      destruct (OK k (s0 :: spec0) (or_introl eq_refl)) as [SOK SCM].
+      destruct (cook_pres _ _ _ _ _ _ _ W UO SOK SCM (getw_inv st P k PI) C) as [WI' WP].
+      destruct (build_all st up cc specs (aset P k w')) as [P'' os'] eqn:B.
+      inversion H; subst. clear H.
+      assert (PI' : P_inv st (aset P k w')).
+      { intros k0 w0 A. destruct (N.eq_dec k k0) as [->|NE].
+        - rewrite aget_aset_same in A. inversion A. subst. auto.
+        - rewrite aget_aset_other in A; eauto. }
+      destruct (IH _ _ _ W UO OK' PI' B) as [PI'' HP]. split; auto.
+      intros x (k0 & w0 & A & HW). apply HP.
+      destruct (N.eq_dec k k0) as [->|NE].
+      * exists k0, w'. split; [apply aget_aset_same|].
+        eapply wpres_holds; eauto. unfold getw. rewrite A. auto.
+      * exists k0, w0. split; auto. rewrite aget_aset_other; auto.
+Qed.
+
+Lemma run_op_inv : forall st P o, store_wf st -> op_ok st o -> P_inv st P -> P_inv st (fst (run_op st P o)).
+Proof.
+  intros st P o W OK PI. destruct o as [cc up specs|used| |k d u]; simpl in *.
+  - destruct OK as [UO OK]. destruct (build_all st up cc specs P) as [P' os] eqn:B. simpl.
+    eapply build_all_pres; eauto.
+  - intros k w A. rewrite (aget_map_val P (fun k w => clean_src_one st (memN k used) w)) in A.
+    destruct (aget P k) eqn:E; inversion A. subst. apply clean_src_pres; eauto.
+  - intros k w A. rewrite (aget_map_val P (fun _ w => clean_attic_one st w)) in A.
+    destruct (aget P k) eqn:E; inversion A. subst. apply clean_attic_pres; eauto.
+  - destruct (pget (w_nodes (getw P k)) d) as [[g|f]|] eqn:PG; simpl; auto.
+    pose proof (getw_inv st P k PI) as WI.
+    intros k0 w0 A. destruct (N.eq_dec k k0) as [->|NE]; [|rewrite aget_aset_other in A; eauto].
+    rewrite aget_aset_same in A. inversion A. subst w0. clear A.
+    set (w := getw P k0) in *.
+    assert (GET : forall p, pget (map (fun pn => if path_eqb (fst pn) d then (d, NGit (user_op st g u)) else pn) (w_nodes w)) p =
+                            match pget (w_nodes w) p with
+                            | Some v => if path_eqb p d then Some (NGit (user_op st g u)) else Some v
+                            | None => None
+                            end).
+    { intro p. unfold pget. apply (kget_map_replace path_eqb path_eqb_spec). }
+    destruct WI. constructor; simpl; auto.
+    + intros p x H. rewrite GET in H. destruct (pget (w_nodes w) p) eqn:E; [|discriminate].
+      destruct (path_eqb p d) eqn:Q.
+      * inversion H. subst. apply user_op_ginv. apply path_eqb_spec in Q. subst. eauto.
+      * inversion H. subst n. eauto.
+    + intros p x H. rewrite GET in H. destruct (pget (w_nodes w) p) eqn:E; [|discriminate].
+      destruct (path_eqb p d) eqn:Q.
+      * apply path_eqb_spec in Q. subst p. eapply wi_rec0. exact PG.
+      * inversion H. subst n. eauto.
+    + intros EX p. rewrite GET. rewrite (wi_gone0 EX p). auto.
+Qed.
+
+Lemma run_op_holds : forall st P o x,
+  store_wf st -> op_ok st o -> bob_op o -> P_inv st P ->
+  holds_P st P x -> holds_P st (fst (run_op st P o)) x.
+Proof.
+  intros st P o x W OK BO PI H. destruct o as [cc up specs|used| |k d u]; simpl in *.
+  - destruct OK as [UO OK]. destruct (build_all st up cc specs P) as [P' os] eqn:B. simpl.
+    eapply build_all_pres; eauto.
+  - destruct H as (k & w & A & HW). exists k, (clean_src_one st (memN k used) w). split.
+    + rewrite (aget_map_val P (fun k w => clean_src_one st (memN k used) w)). rewrite A. auto.
+    + apply clean_src_pres; eauto.
+  - destruct H as (k & w & A & HW). exists k, (clean_attic_one st w). split.
+    + rewrite (aget_map_val P (fun _ w => clean_attic_one st w)). rewrite A. auto.
+    + apply clean_attic_pres; eauto.
+  - contradiction.
+Qed.
+
+Lemma run_ops_app : forall st ops1 ops2 P, run_ops st P (ops1 ++ ops2) = run_ops st (run_ops st P ops1) ops2.
+Proof. induction ops1; simpl; auto. Qed.
+
+Lemma run_ops_inv : forall st ops P, store_wf st -> Forall (op_ok st) ops -> P_inv st P -> P_inv st (run_ops st P ops).
+Proof.
+  induction ops as [|o ops IH]; intros P W F PI; simpl; auto.
+  inversion F; subst. apply IH; auto. apply run_op_inv; auto.
+Qed.
+
+Theorem user_objects_monotone_proof : forall st ops1 ops2 o,
+  store_wf st -> Forall (op_ok st) (ops1 ++ ops2) -> Forall bob_op ops2 ->
+  holds_P st (run_ops st [] ops1) o -> holds_P st (run_ops st [] (ops1 ++ ops2)) o.
+Proof.
+  intros st ops1 ops2 o W F B H. rewrite run_ops_app.
+  apply Forall_app in F. destruct F as [F1 F2].
+  assert (PI : P_inv st (run_ops st [] ops1)).
+  { apply run_ops_inv; auto. intros k w A. discriminate. }
+  revert PI H. generalize (run_ops st [] ops1). clear F1.
+  induction ops2 as [|x ops2 IH]; intros P PI H; simpl; auto.
+  inversion F2; subst. inversion B; subst.
+  apply IH; auto.
+  - apply run_op_inv; auto.
+  - apply run_op_holds; auto.
+Qed.
